@@ -131,7 +131,7 @@ def main():
     evidence = {"property_id": pid, "tier": tier, "seed": seed, "level": P["level"], "coverage": cov,
                 "assumptions": COMMON_ASSUMPTIONS + P.get("assumptions", []), "wall_s": round(wall, 2), "violations": unknown,
                 "known_findings_seen": knowncnt}
-    evdir = os.path.join(V, "evidence") if key == "default" else os.path.join(outdir, "evidence")   # runs against a scratch copy (VERIF_REPO) do not touch the evidence of /repo
+    evdir = os.environ.get("VERIF_EVIDENCE") or (os.path.join(V, "evidence") if key == "default" else os.path.join(outdir, "evidence"))   # runs against a scratch copy (VERIF_REPO) do not touch the evidence of /repo
     os.makedirs(evdir, exist_ok=True)
     with open(os.path.join(evdir, pid + ".json"), "w") as f: json.dump(evidence, f, indent=1)
     for l in lines: print(l)
